@@ -1,4 +1,5 @@
 """C06 — every style mapping the documented syntax can express means what it says."""
+import common
 import random
 
 import docx as D
@@ -94,7 +95,7 @@ def probe_doc(mp, rng):
 
 def run(out, tier, seed, model_ok):
     rng = random.Random(seed * 7919 + 6)
-    n = 4000 if tier == "quick" else 60000
+    n = common.deepen(4000 if tier == "quick" else 60000)
     items = []
     for i in range(n):
         mp = GS.gen_mapping(rng, None, hostile=rng.choice([0.0, 0.3, 0.6]))
